@@ -112,10 +112,21 @@ def compare(ctx, base, twin, tot, what, rename=None, shift=0.0, scale=1.0, mirro
     ctx.require(h.conj(conds), f"{what}: targets, utility duties and pinch temperatures agree")
 
 
+GLIDE_UTILS = [  # (name, type, t_supply, t_target, dt): non-isothermal loops; the glycol loop returns at exactly 0.0
+    ("HotOil", "Hot", 300.0, 260.0, 5.0), ("Glycol", "Cold", -10.0, 0.0, 5.0)]
+
+
+def mk_utils(ctx, case, shift=0.0):
+    if not case.get("utils"):
+        return []
+    return [{"name": n, "type": ty, "t_supply": ctx.const(ts) + shift, "t_target": ctx.const(tt) + shift, "dt_cont": ctx.const(dt),
+             "htc": ctx.const(1.0), "price": ctx.const(40.0)} for n, ty, ts, tt, dt in GLIDE_UTILS]
+
+
 def body(ctx, case):
     tr = case["transform"]
     streams, x = build_base(ctx, case)
-    base_spec = {"streams": [mk_stream(ctx, *s) for s in streams], "utilities": [], "options": {"DO_BALANCED_CC": False}}
+    base_spec = {"streams": [mk_stream(ctx, *s) for s in streams], "utilities": mk_utils(ctx, case), "options": {"DO_BALANCED_CC": False}}
     tot = sum((s["heat_flow"] for s in base_spec["streams"]), ctx.const(0.0))
     kw = {}
     if tr == "permute":
@@ -155,7 +166,7 @@ def body(ctx, case):
         kw["mirror"] = True
     else:
         raise ValueError(tr)
-    twin_spec = {"streams": twin_streams, "utilities": [], "options": {"DO_BALANCED_CC": False}}
+    twin_spec = {"streams": twin_streams, "utilities": mk_utils(ctx, case, kw.get("shift", 0.0)), "options": {"DO_BALANCED_CC": False}}
     rb = records_by_name(service.call_service(ctx, service.make_input(ctx, base_spec, "dict"), project_name="Site"))
     rt = records_by_name(service.call_service(ctx, service.make_input(ctx, twin_spec, "dict"), project_name="Site"))
     compare(ctx, rb, rt, tot, tr, **kw)
@@ -172,12 +183,14 @@ def cases(tier, seed):
         out.append({"template": "one_zone", "transform": "split_parallel", "split": 1})
         out.append({"template": "one_zone", "transform": "split_T", "split": 1, "sweep": False})
         out.append({"template": "two_zones", "transform": "translate", "sweep": False})
+        out.append({"template": "two_zones", "transform": "translate", "sweep": False, "utils": True})
         out.append({"template": "one_zone", "transform": "mirror"})
     else:
         for tp in ("one_zone", "two_zones", "three"):
             for tr in ("permute", "split_parallel", "mirror"):
                 out.append({"template": tp, "transform": tr, "lam": 0.5, "split": 1})
             out.append({"template": tp, "transform": "translate", "sweep": False})
+            out.append({"template": tp, "transform": "translate", "sweep": False, "utils": True})
             out.append({"template": tp, "transform": "split_T", "split": 1, "sweep": False})
             out.append({"template": tp, "transform": "split_T", "split": 0, "sweep": False})
         out.append({"template": "two_zones", "transform": "rename"})
